@@ -51,6 +51,39 @@ def store_snapshot(I, contract):
     return {k: (clone(v) if not hasattr(v, 'entries') else [[kk, clone(vv)] for kk, vv in v.entries]) for k, v in I.world.store(contract).items()}
 
 
+def _replay(contract, kind):
+    """native replay: the fresh native deployment has owner `creator`; a pending transfer is set up by a real TransferOwnership first"""
+    from .pm import generic_replay, pool_json
+
+    def build(m):
+        ch = m['_choices']
+        who = ['creator', 'pendy', 'mallory', 'pool_manager', 'farm_manager'][ch['sender']]
+        steps = []
+        if ch['pending'] == 1:
+            steps.append({'op': 'execute', 'contract': contract, 'sender': 'creator', 'funds': [],
+                          'msg': {'update_ownership': {'transfer_ownership': {'new_owner': '@pendy', 'expiry': None}}}})
+        funds = []
+        if ch['funds'] == 1:
+            steps.append({'op': 'mint', 'to': who, 'funds': [{'denom': 'uom', 'amount': '5'}]})
+            funds = [{'denom': 'uom', 'amount': '5'}]
+        if kind == 'toggle':
+            steps.append({'op': 'set_pool', 'pool': pool_json('p1', ['uA', 'uB'], [6, 6], [5, 5], 'constant_product', (0, 0, 0, []))})
+            msg = {'update_config': {'feature_toggle': {'pool_identifier': 'p1', 'swaps_enabled': False}}}
+        elif kind == 'config':
+            msg = {PM: {'update_config': {'fee_collector_addr': '@newfc', 'pool_creation_fee': {'denom': 'uusd', 'amount': '5'}}},
+                   FM: {'update_config': {'create_farm_fee': {'denom': 'uom', 'amount': '7'}, 'max_concurrent_farms': 9}},
+                   EM: {'update_config': {'epoch_config': {'duration': str(2 * DAY), 'genesis_epoch': str(10 ** 9)}}}}[contract]
+        elif kind == 'transfer':
+            msg = {'update_ownership': {'transfer_ownership': {'new_owner': '@newowner', 'expiry': None}}}
+        elif kind == 'accept':
+            msg = {'update_ownership': 'accept_ownership'}
+        else:
+            msg = {'update_ownership': 'renounce_ownership'}
+        steps.append({'op': 'execute', 'contract': contract, 'sender': who, 'funds': funds, 'msg': msg})
+        return {'setup': {'time_nanos': '0', 'epoch': {'genesis': '0', 'duration': str(DAY)}}, 'steps': steps}, len(steps) - 1
+    return generic_replay(build)
+
+
 def _ob(contract, kind):
     def s(I):
         pending = I.choose(2, 'pending') == 1
@@ -76,6 +109,9 @@ def _ob(contract, kind):
         before = store_snapshot(I, contract)
         ch = Chain(I, ALL)
         st, _ = ch.execute(who, contract, msg, funds)
+        I.observe('status', 'ok' if st == 'ok' else 'err')
+        if kind == 'toggle':
+            observe_pool(I, 'p1')
         if kind == 'accept':
             authorised = pending and who == 'pendy'
         else:
@@ -110,4 +146,4 @@ for _c in ALL:
                              'sender role (pending owner, stranger, pool manager, farm manager) is rejected and the contract storage is unchanged; ownership moves only '
                              'by propose + accept or ends by renounce' % (_c, _k),
                    bounds='sender in {owner, pending owner, stranger, pool manager, farm manager}; pending transfer present or not; with / without funds',
-                   covers=['ok', 'rejected'])(_ob(_c, _k))
+                   covers=['ok', 'rejected'], replay=_replay(_c, _k))(_ob(_c, _k))
